@@ -17,7 +17,9 @@ RULE = ('Reference generator + E1: wire frames built from the grammar with '
         'long strings, unused flag bit, continuation flag word, foreign '
         'class id / weight, values the send-side validators refuse, every '
         'method class x <=1-deviation vectors, and the dense interior sweeps '
-        'of C01 reference-encoded. Each frame is decoded by the '
+        'of C01 reference-encoded; arrays of n values of one tag for each of '
+        '17 tags and every n of 0..69, 100, 255, 256, 400 (sign-bit '
+        'payloads, all-same / alternating / one foreign element). Each frame is decoded by the '
         'independent reference decoder and by the library; a case is one '
         'wire frame (or value encoding); non-trivial = all.')
 BOUNDS = {'quick': {'tags_8bit': 'all 256', 'tags_16bit': 'all 65536',
@@ -45,6 +47,7 @@ def tasks(tier, seed):
             ('timestamps',), ('headers',), ('invalid-on-send',), ('nested',)]
     out += [('methods', m.name) for m in spec_table.METHODS]
     out += [('dense',) + t for t in corpus.dense_tasks(tier)]
+    out += [('tagarrays', t) for t in 'tbBsuIilLfdDSTFVx']
     return out
 
 
@@ -373,6 +376,46 @@ def run(task, ctx):
                 check_value(ctx, vb, 'nesting depth %d %s' % (depth, pattern))
         rich = refcodec.enc_value(A.rich_table())
         check_value(ctx, rich, 'rich table')
+    elif kind == 'tagarrays':
+        # arrays of n values of ONE tag, for every n of a dense range, with
+        # payloads that exercise the sign bit; all-same and alternating
+        tag = task[1]
+        width = {'t': 1, 'b': 1, 'B': 1, 's': 2, 'u': 2, 'I': 4, 'i': 4,
+                 'l': 8, 'L': 8, 'f': 4, 'd': 8, 'D': 5, 'T': 8}.get(tag)
+        if width is not None:
+            pays = [b'\xff' * width, b'\x80' + b'\x00' * (width - 1),
+                    b'\x7f' + b'\xff' * (width - 1), b'\x00' * width]
+            if tag == 'L':
+                pays = pays[2:]
+            if tag == 'T':
+                pays = [struct.pack('>Q', 1600000000), struct.pack('>Q', 0)]
+            if tag == 'D':
+                pays = [b'\x02\xff\xff\xff\x85', b'\x00\x00\x00\x00\x07']
+            if tag in 'fd':
+                pays = [struct.pack('>f' if tag == 'f' else '>d', x)
+                        for x in (1.5, -2.0)]
+            elems = [tag.encode() + q for q in pays]
+        elif tag == 'S':
+            elems = [b'S\x00\x00\x00\x01a', b'S\x00\x00\x00\x00']
+        elif tag == 'x':
+            elems = [b'x\x00\x00\x00\x01\xce', b'x\x00\x00\x00\x00']
+        elif tag == 'F':
+            elems = [b'F\x00\x00\x00\x00', b'F\x00\x00\x00\x03\x01kV']
+        else:
+            elems = [b'V', b'\x00']
+        counts = list(range(0, 70)) + [100, 255, 256, 400]
+        for n in counts:
+            variants = [[elems[0]] * n,
+                        [elems[i % len(elems)] for i in range(n)]]
+            if n > 2:
+                mixed = [elems[0]] * n
+                mixed[n // 2] = b't\x01'
+                variants.append(mixed)
+            for items in variants:
+                body = b''.join(items)
+                vb = b'A' + struct.pack('>I', len(body)) + body
+                check_value(ctx, vb, 'array of %d x tag %s' % (n, tag),
+                            through_frame=(n % 8 == 0))
     elif kind == 'dense':
         # interior values: the reference-encoded dense sweeps of C01
         for m, vec, ch in corpus.dense_cases(task[1:], ctx.tier):
